@@ -494,13 +494,24 @@ impl Oracle {
         }
         None
     }
+    /// the details inside refusals are not part of C09: `NotEnoughData(e,a)` -> `NotEnoughData`, `UnsupportedVersion(v)` -> `UnsupportedVersion`,
+    /// `ParamSet(kind)` -> `ParamSet(*)`
+    fn norm_avcc(t: &str) -> String {
+        let mut out = String::new(); let mut rest = t;
+        loop {
+            let hits = [("NotEnoughData(", "NotEnoughData"), ("UnsupportedVersion(", "UnsupportedVersion"), ("ParamSet(", "ParamSet(*)")];
+            let next = hits.iter().filter_map(|(k, r)| rest.find(k).map(|p| (p, *k, *r))).min_by_key(|x| x.0);
+            match next { None => { out.push_str(rest); return out; }
+                Some((p, k, r)) => { out.push_str(&rest[..p]); out.push_str(r); let after = &rest[p + k.len()..]; rest = match after.find(')') { Some(c) => &after[c + 1..], None => "" }; } }
+        }
+    }
     fn c09(&mut self, h: &str, line: &str) -> String {
-        let obs = self.run.run_line(line);
+        let obs = Self::norm_avcc(&self.run.run_line(line));
         if obs == "PANIC" || obs.contains("PANIC") { return "FAIL panic".into(); }
         let d = unhex(h);
         if let Some(f) = Self::avcc_iterators_end(&d) { return f; }
-        if d.len() < 6 { return if obs == format!("NotEnoughData(6,{})", d.len()) { "ok".into() } else { format!("FAIL a {}-byte record was not refused as too short: {}", d.len(), &obs[..obs.len().min(80)]) }; }
-        if d[0] != 1 { return if obs == format!("UnsupportedVersion({})", d[0]) { "ok".into() } else { format!("FAIL version {} not refused: {}", d[0], &obs[..obs.len().min(80)]) }; }
+        if d.len() < 6 { return if obs == "NotEnoughData" { "ok".into() } else { format!("FAIL a {}-byte record was not refused as too short: {}", d.len(), &obs[..obs.len().min(80)]) }; }
+        if d[0] != 1 { return if obs == "UnsupportedVersion" { "ok".into() } else { format!("FAIL version {} not refused: {}", d[0], &obs[..obs.len().min(80)]) }; }
         // walk the declared entries; any entry cut short means the record must be refused
         let mut pos = 6usize; let mut lists: Vec<Vec<&[u8]>> = vec![vec![], vec![]]; let mut truncated = false;
         let nsps = (d[5] & 31) as usize;
@@ -513,10 +524,10 @@ impl Oracle {
                 lists[which].push(&d[pos..pos + l]); pos += l;
             }
         }
-        if truncated { return if obs.starts_with("NotEnoughData(") { "ok".into() } else { format!("FAIL a record truncated inside its declared parameter sets was not refused: {}", &obs[..obs.len().min(100)]) }; }
+        if truncated { return if obs.starts_with("NotEnoughData") { "ok".into() } else { format!("FAIL a record truncated inside its declared parameter sets was not refused: {}", &obs[..obs.len().min(100)]) }; }
         if !obs.starts_with("Ok ") { return format!("FAIL a well-formed record was refused: {}", &obs[..obs.len().min(100)]); }
         let render = |l: &Vec<&[u8]>, want: u8| -> String {
-            for n in l { if n.is_empty() { return "ParamSet(Empty)".into(); } if n[0] & 0x80 != 0 { return "ParamSet(ForbiddenZeroBit)".into(); } if n[0] & 31 != want { return "ParamSet(IncorrectNalType)".into(); } }
+            for n in l { if n.is_empty() { return "ParamSet(*)".into(); } if n[0] & 0x80 != 0 { return "ParamSet(*)".into(); } if n[0] & 31 != want { return "ParamSet(*)".into(); } }
             format!("Ok({})", l.iter().map(|n| hex(n)).collect::<Vec<_>>().join(","))
         };
         // A.3: the level byte is the level, except that 11 with constraint_set3_flag means Level 1b
@@ -865,6 +876,8 @@ impl Oracle {
                 && got.len() == k + 4 && got[k].starts_with("err:Io(") && got[k].ends_with(",InvalidData)") && got[k + 1..].iter().all(|g| *g == "end");
             return if ok { "ok".into() } else { format!("FAIL reader gave [{}] for a NAL with a forbidden sequence; expected a prefix of [{}] then InvalidData", obs, w) };
         }
-        if obs == w { "ok".into() } else { format!("FAIL reader gave [{}] expected [{}]", obs, w) }
+        // (the field names inside the errors are the library's own strings: not compared)
+        let strip = |t: &str| -> String { let mut out = String::new(); let mut rest = t; while let Some(k) = rest.find("Io(") { out.push_str(&rest[..k + 3]); let after = &rest[k + 3..]; match after.find(',') { Some(c) => { out.push('*'); rest = &after[c..]; } None => { rest = after; } } } out.push_str(rest); out };
+        if strip(&obs) == strip(&w) { "ok".into() } else { format!("FAIL reader gave [{}] expected [{}]", obs, w) }
     }
 }
